@@ -46,7 +46,8 @@ InitWorld ==
     disp |-> [owner |-> "owner", nominee |-> "owner", hub |-> "hub", reward |-> "reward",
               stDenom |-> "usei", bDenom |-> "kusd", keeper |-> "keeper", rate |-> KeeperRate,
               swap |-> "swap", swapDenoms |-> <<"usei", "kusd", "ufor">>, oracle |-> "oracle"],
-    reg |-> [owner |-> "owner", nominee |-> "owner", hub |-> "hub", vals |-> InitVals] ]
+    reg |-> [owner |-> "owner", nominee |-> "owner", hub |-> "hub", vals |-> InitVals],
+    air |-> [hub |-> 0, pair |-> 0, amt |-> 0] ]
 
 -----------------------------------------------------------------------------
 \* transactions and environment events
@@ -65,6 +66,7 @@ Apply(tx, w0) ==
     [] tx.k = "set_canredel" -> EnvResult(TRUE, w0, [w0 EXCEPT !.canRedel[tx.v] = tx.b])
     [] tx.k = "set_legacy"   -> EnvResult(TRUE, w0, [w0 EXCEPT !.legacy = tx.entries])     \* test set-up only: pre-migration storage
     [] tx.k = "deliver"   -> EnvResult(TRUE, w0, [w0 EXCEPT !.bank["reward"][tx.d] = @ + tx.a])       \* coins sent to the reward contract
+    [] tx.k = "set_airdrop" -> EnvResult(TRUE, w0, [w0 EXCEPT !.air.amt = tx.a])                        \* what the next airdrop claim hands out
     [] tx.k = "fund"      -> EnvResult(tx.to \in BankAccts, w0, [w0 EXCEPT !.bank[tx.to][tx.d] = @ + tx.a])   \* unsolicited coins to any account
     [] tx.k = "instantiate_token" ->                                                                \* a fresh token contract at address tx.c
          LET r == TokInstantiate(tx.c, "hub", IF tx.c = "stsei" THEN "owner" ELSE "", tx.init)
